@@ -55,7 +55,7 @@ pub fn read_doc(bytes: &[u8]) -> Option<Doc> {
             }
             Event::Text(t) => {
                 let raw = t.into_inner();
-                let s = String::from_utf8(raw.to_vec()).ok()?.replace("&lt;", "<").replace("&gt;", ">").replace("&amp;", "&");
+                let s = crate::dom::mark_entities(&String::from_utf8(raw.to_vec()).ok()?).replace("&lt;", "<").replace("&gt;", ">").replace("&amp;", "&");
                 let it = if is_ws(&raw) { Item::Ws(s) } else { Item::Text(s) };
                 match stack.last_mut() {
                     Some(p) => p.items.push(it),
